@@ -11,6 +11,7 @@ import (
 	"fmt"
 	"math"
 	"sort"
+	"time"
 
 	pb "github.com/libp2p/go-libp2p-pubsub/pb"
 	"github.com/libp2p/go-libp2p/core/peer"
@@ -35,6 +36,7 @@ func genC06(seed uint64, tier string) *Plan {
 	p.Knobs["rsize"] = float64([]int{1, 10, 50, 100}[r.intn(4)])
 	p.Knobs["idw_threshold"] = 0
 	p.Knobs["seen_ttl_ms"] = 600000
+	p.Knobs["fanout_ttl_s"] = float64([]int{2, 3, 5, 60}[r.intn(4)])
 	genDegrees(r, p, 5)
 	add := func(op string, a ...int64) { p.Items = append(p.Items, Item{Op: op, A: a}) }
 	if r.chance(0.75) {
@@ -93,8 +95,17 @@ func genC06(seed uint64, tier string) *Plan {
 			add("pubx", i, t, int64(r.rng(8, 100)))
 		case x < 48:
 			add("node-pub", t, int64(r.rng(8, 200)))
-		case x < 51:
+		case x < 49:
 			add("node-pub-local", t, int64(r.rng(8, 60)))
+		case x < 51:
+			add("batch-local", t, int64(r.rng(8, 60)))
+			if r.chance(0.4) {
+				// keep publishing to one topic for longer than the fanout TTL
+				for c := r.rng(3, 7); c > 0; c-- {
+					add("node-pub", 1, int64(r.rng(8, 60)))
+					add("adv", int64(r.rng(600, 1900)))
+				}
+			}
 		case x < 58:
 			add("adv", int64(r.rng(300, 2500)))
 		case x < 64:
@@ -396,6 +407,60 @@ func runC06(s *sim) {
 		}
 	}
 
+	// fanout stability across publishes: members stay while eligible and the topic keeps being published to
+	type fanState struct {
+		set  map[peer.ID]bool
+		last time.Duration
+	}
+	fan := map[string]*fanState{}
+	if gs != nil {
+		w.afterHeartbeat = append(w.afterHeartbeat, func(hpre, hpost *snapshot) {
+			for t, f := range fan {
+				if _, joinedNow := hpost.mesh[t]; joinedNow {
+					delete(fan, t)
+					continue
+				}
+				for id := range f.set {
+					_, in := hpost.topics[t][id]
+					sc := 0.0
+					if scoring {
+						sc = hpost.scores[id]
+					}
+					if _, conn := hpost.gsPeers[id]; !in || !conn || sc < gs.publishThreshold || hpost.direct[id] {
+						delete(f.set, id)
+					}
+				}
+			}
+		})
+	}
+	fanoutTTL := time.Duration(p.ki("fanout_ttl_s", 60)) * time.Second
+	checkFanoutKept := func(post *snapshot, topic, op string) {
+		if gs == nil {
+			return
+		}
+		if _, joined := post.mesh[topic]; joined {
+			delete(fan, topic)
+			return
+		}
+		now := post.t
+		if f := fan[topic]; f != nil && now-f.last < fanoutTTL-1500*time.Millisecond {
+			for id := range f.set {
+				_, in := post.topics[topic][id]
+				if in && !post.fanout[topic][id] {
+					s.violate("C06", "fanout", "C06/fanout/member-dropped-while-publishing", "%s: fanout member %s of %s was dropped although it stayed eligible and the topic was published to %v ago (fanout TTL %v)", op, shortPeer(id), topic, now-f.last, fanoutTTL)
+				}
+			}
+			s.probe("fanout_kept_across_publishes")
+			if now > fanoutTTL {
+				s.probe("fanout_older_than_ttl_still_published")
+			}
+		}
+		set := map[peer.ID]bool{}
+		for id := range post.fanout[topic] {
+			set[id] = true
+		}
+		fan[topic] = &fanState{set: set, last: now}
+	}
 	var pre *snapshot
 	var pending *trigger
 	w.beforeItem = append(w.beforeItem, func(it Item) {
@@ -465,6 +530,23 @@ func runC06(s *sim) {
 			return t.Publish(context.Background(), data, WithLocalPublication(true))
 		})
 	}
+	w.extraOps["batch-local"] = func(it Item) { // local-only publication through a batch
+		topic := w.topicName(it.a(0))
+		data := w.mkData(int(it.a(1)))
+		pending = &trigger{msg: &pb.Message{Data: data}, topic: topic, local: true, only: true}
+		s.probe("local_only_publication_in_batch")
+		s.do("AddToBatch(local-only)+PublishBatch "+topic, func() any {
+			t, err := w.n.topic(topic)
+			if err != nil {
+				return err
+			}
+			var b MessageBatch
+			if err := t.AddToBatch(context.Background(), &b, data, WithLocalPublication(true)); err != nil {
+				return err
+			}
+			return w.n.ps.PublishBatch(&b)
+		})
+	}
 	w.localHook = func(topic string, data []byte, c *call) {
 		pending = &trigger{msg: &pb.Message{Data: data}, topic: topic, local: true, author: w.n.h.id}
 	}
@@ -476,6 +558,21 @@ func runC06(s *sim) {
 		return mkSignedMsg(ghostKey, ghostID, topic, data, sq)
 	}
 	w.afterItem = append(w.afterItem, func(it Item) {
+		if gs != nil {
+			// a join in between replaces the fanout by a mesh: the history of that fanout ends
+			for t, f := range fan {
+				if _, joined := gs.mesh[t]; joined {
+					delete(fan, t)
+					continue
+				}
+				// a member whose outbound stream closed leaves the fanout at once
+				for id := range f.set {
+					if _, conn := gs.peers[id]; !conn {
+						delete(f.set, id)
+					}
+				}
+			}
+		}
 		if pending == nil || pre == nil || s.stopped {
 			return
 		}
@@ -507,6 +604,9 @@ func runC06(s *sim) {
 			}
 		}
 		judge(pre, post, tr, it.Op)
+		if tr.local && !tr.only {
+			checkFanoutKept(post, tr.topic, it.Op)
+		}
 	})
 	w.atEnd = append(w.atEnd, func() {
 		s.nontrivial = nTrig > 0
